@@ -5,7 +5,11 @@ import os
 import re
 import shutil
 import subprocess
+import sys
 import time
+
+sys.path.insert(0, os.path.dirname(os.path.abspath(__file__)))
+import kblocks  # noqa: E402
 
 VERIF = os.path.dirname(os.path.dirname(os.path.abspath(__file__)))
 WORK = os.environ.get('VERIF_WORK', '/var/tmp/wrv')
@@ -57,6 +61,13 @@ def prepare_scratch(tag, repo='/repo'):
         srcp = os.path.join(VERIF, h['harness_src'])
         if os.path.exists(srcp):
             shutil.copy(srcp, os.path.join(cdir, h['harness_dst']))
+            _, notes = kblocks.generate(os.path.dirname(srcp), dst, h['crate_dir'])
+            for n in notes:
+                msg = 'E11 block %(block)s from %(file)s | %(fn)s: %(statements)s' % n
+                if msg not in applied:
+                    applied.append(msg)
+        else:
+            open(os.path.join(cdir, h['harness_dst']), 'w').write('// no harnesses for this module\n')
         for extra in h.get('scratch_edits', []):
             fp = os.path.join(dst, extra['file'])
             t = open(fp).read()
